@@ -1,20 +1,16 @@
 (* ops_modpow.ml — C05 operations: model (Monty.v, Modpow.v) and spec (SpecModpow.v).
 
    The model is parameterised by the big multiplication / division of the other areas.
-   STAND-INS (until model/Mul.v and model/Div.v are merged and instantiated in
-   proofs/ModpowInst.v): [bmul] and [bdivrem] below are the *specifications* of those
-   operations (`Ret (enc (val a * val b))`, `Ret (enc (a / b), enc (a mod b))`, DivZero on
-   a zero divisor) — exactly the Section hypotheses under which the C05 theorems are
-   proved.  Subtraction, addition, comparison and the shift are the real models. *)
+   Since the merge of model/Mul.v and model/Div.v these are the REAL model functions
+   (the same instantiation as proofs/ModpowInst.v):
+     bmul    = Mul.umul Extracted.mul        bdivrem = Div.udivrem Extracted.div
+   Subtraction, addition, comparison and the shift are the AddSub / ShiftCore models. *)
 open Io
 let p = Extracted.modpow
 let ap = Extracted.addsub
 let v = Base.coq_val
-let bmul a b = Base.Ret (Base.enc (Zar.mul (v a) (v b)))
-let bdivrem a b =
-  let vb = v b in
-  if Zar.equal vb Zar.zero then Base.Panic Base.DivZero
-  else let (q, r) = Zar.ediv_rem (v a) vb in Base.Ret (Base.enc q, Base.enc r)
+let bmul a b = Mul.umul Extracted.mul a b
+let bdivrem a b = Div.udivrem Extracted.div a b
 
 let arity () = failwith "arity"
 let init () =
